@@ -195,7 +195,7 @@ func Fold[A any](ctx context.Context, par int, in <-chan A, m monoid.Monoid[A]) 
 	go func() {
 		wg.Wait()
 
-		var acc A
+		acc := m.Empty()
 		for i := 1; i <= par; i++ {
 			acc = m.Combine(acc, <-vals)
 		}
